@@ -54,6 +54,7 @@ fn main() {
             "C05" | "C20" | "C07" if testrun_script::is_script_op(&r) => testrun_script::replay(&prop, &r),
             "C05" | "C20" if testrun::is_testdoc_op(&r) => testrun::replay(&prop, &r),
             "C05" | "C14" | "C15" | "C20" => exec::replay(&prop, &r),
+            "C16" if testrun_script::is_script_op(&r) => testrun_script::replay(&prop, &r),
             "C16" => config::replay(&prop, &r),
             "C18" => envdir::replay(&prop, &r),
             "C12" => shellstate::replay(&prop, &r),
@@ -87,7 +88,11 @@ fn main() {
             testrun_script::run(&ctx, &prop);
         }
         "C14" | "C15" => exec::run(&ctx, &prop),
-        "C16" => config::run(&ctx, &prop),
+        "C16" => {
+            config::run(&ctx, &prop);
+            // the single-script executor has to carry the key `strip_ansi_escaping` too (fix set_consistent!)
+            testrun_script::run_strip(&ctx, &prop);
+        }
         "C18" => envdir::run(&ctx, &prop),
         "C12" => shellstate::run(&ctx, &prop),
         "C06" => markdown::run(&ctx, &prop),
